@@ -76,5 +76,28 @@ func (w *WaitGroup) Wait() {
 	vsched.WaitFor(func() bool { return w.n <= 0 })
 }
 
-// Once is sync.Once (not a scheduling point).
-type Once = sync.Once
+// Once is sync.Once under the scheduler: a second caller parks (visibly to the scheduler) until the first call of f
+// has returned, instead of blocking on a real mutex while the first caller is itself parked inside f.
+type Once struct {
+	real    sync.Once
+	running bool
+	done    bool
+}
+
+func (o *Once) Do(f func()) {
+	if !vsched.Active() {
+		o.real.Do(f)
+		return
+	}
+	vsched.Yield()
+	if o.done {
+		return
+	}
+	if o.running {
+		vsched.WaitFor(func() bool { return o.done })
+		return
+	}
+	o.running = true
+	defer func() { o.done = true }()
+	f()
+}
